@@ -13,6 +13,7 @@ import (
 	"net/http"
 	"net/http/httptest"
 	"strings"
+	"time"
 
 	"github.com/ThreeDotsLabs/watermill/message"
 	ledger "github.com/formancehq/ledger/internal"
@@ -330,7 +331,9 @@ func runHistory(r *vx.Run, h []hreq) {
 		before, evBefore := len(disk.Logs), len(w.events)
 		rec := httptest.NewRecorder()
 		var pan string
-		func() {
+		answered := make(chan struct{})
+		go func() {
+			defer close(answered)
 			defer func() {
 				if e := recover(); e != nil {
 					pan = fmt.Sprint(e)
@@ -339,6 +342,22 @@ func runHistory(r *vx.Run, h []hreq) {
 			w.router.ServeHTTP(rec, q.http())
 		}()
 		in0 := map[string]any{"history": h, "failing_request": i}
+		select {
+		case <-answered:
+		case <-time.After(10 * time.Second):
+			// a sequential history: nothing else is running, so nothing this request could be waiting for will ever happen
+			refusedPreview := false
+			for _, p := range h[:i] {
+				refusedPreview = refusedPreview || isDry(p.Dry)
+			}
+			if refusedPreview {
+				r.FailP("C14", "http:request-never-answered-after-a-preview:"+q.API+":"+q.Kind, in0, "the request blocks for ever (something an earlier preview left behind: a lock, a reservation)", size)
+			}
+			r.FailP("C06", "http:request-never-answered:"+q.API+":"+q.Kind, in0, "a lone request in a sequential history blocks for ever", size)
+			key, _ := json.Marshal(h)
+			r.Case("", map[string]any{"history": h}, string(key), len(h) >= 3)
+			return
+		}
 		if first, stored := storedBy[q.IK]; q.IK != "" && stored && !sameRequest(first, q) {
 			// the key stores the outcome of a DIFFERENT request: refused with an error response (which status code is not what C06/C07/C16 are about), nothing written, nothing
 			// published (a preview is refused too: the key is looked up before anything else)
@@ -486,6 +505,10 @@ func runHistory(r *vx.Run, h []hreq) {
 			}
 		}
 	}
+	for _, d := range disk.ShadowDiffs {
+		kind := strings.SplitN(d, "|", 2)[0]
+		r.FailP("C07", "inmemory-store:"+kind+"-read-differs-from-the-log", map[string]any{"history": h}, d, size)
+	}
 	key, _ := json.Marshal(h)
 	r.Case("", map[string]any{"history": h}, string(key), len(h) >= 3)
 }
@@ -552,7 +575,11 @@ func gen(g *vx.Rng) []hreq {
 			q.Kind = "create"
 			m := 1 + g.Intn(2)
 			for j := 0; j < m; j++ {
-				q.Posts = append(q.Posts, [4]string{accs[g.Intn(3)], accs[g.Intn(3)], "USD", fmt.Sprint(1 + g.Intn(30))})
+				amt := 1 + g.Intn(30)
+				if g.Chance(1, 5) {
+					amt = 500 // more than anybody holds: refused (after the accounts were locked), as a real write or as a preview
+				}
+				q.Posts = append(q.Posts, [4]string{accs[g.Intn(3)], accs[g.Intn(3)], "USD", fmt.Sprint(amt)})
 			}
 			if g.Chance(1, 3) {
 				q.Ref = fmt.Sprintf("ref-%d", g.Intn(4))
@@ -644,6 +671,10 @@ func varsShapes(r *vx.Run) {
 			switch {
 			case pan != "":
 				r.FailP("C12", "http:panic-decoding-or-running-script-vars:"+api, in, pan, len(vars))
+			case rec.Code == 500 || strings.Contains(rec.Body.String(), `"INTERNAL"`):
+				// the router's Recoverer turns a panic of the handler into a 500; a malformed variable map is a client
+				// error with a defined code, and a well-formed one succeeds: an internal error here is a crash
+				r.FailP("C12", "http:internal-error-decoding-or-running-script-vars:"+api, in, fmt.Sprintf("status %d body %s", rec.Code, rec.Body.String()), len(vars))
 			case ok && len(disk.Logs) != 1:
 				r.FailP("C06", "http:success-without-exactly-one-entry:"+api+":script-vars", in, fmt.Sprintf("status %d, %d entries", rec.Code, len(disk.Logs)), len(vars))
 			case !ok && api != "bulk" && len(disk.Logs) != 0:
